@@ -83,7 +83,7 @@ func TestC11(t *testing.T) {
 			"dispatched to every handler under recover. distinct = (variant, sequence) / request hash; non-trivial = a sequence with >= 1 failing call on both sides and >= 1 watch event " +
 			"compared, or a hostile request that the server rejected")
 		c.Assume("the loopback transport carries errors as grpc-go does (code + message); timestamps are compared within a handle, not across the twins")
-		c.Require("steps_compared", "failing_calls_compared", "watch_events_compared", "sticky_fallback_checked", "blocking_tad_compared", "hostile_requests", "hostile_rejected", "mutated_wire_messages")
+		c.Require("steps_compared", "failing_calls_compared", "watch_events_compared", "sticky_fallback_checked", "blocking_tad_compared", "hostile_requests", "hostile_rejected", "mutated_wire_messages", "slow_remote_watchers", "slow_remote_watchers_errored")
 
 		n := c.N(1500, 60000)
 
@@ -102,11 +102,141 @@ func TestC11(t *testing.T) {
 				rng := rand.New(rand.NewPCG(uint64(c.Seed), uint64(k)))
 				synctest.Test(t, func(*testing.T) { differential(c, rng, k) })
 				synctest.Test(t, func(*testing.T) { hostile(c, rand.New(rand.NewPCG(uint64(c.Seed), uint64(3_000_000+k))), k) })
+
+				if k%10 == 0 {
+					synctest.Test(t, func(*testing.T) { slowRemoteWatcher(c, rand.New(rand.NewPCG(uint64(c.Seed), uint64(5_000_000+k))), k) })
+				}
 			}()
 		}
 
 		wg.Wait()
 	})
+}
+
+// ---- a remote watcher that does not keep up ----------------------------------------------------------------------------
+// The wrapped state keeps a short history; a watch (by id / by kind / aggregated) is opened through the client adapter and the loopback
+// transport and nobody reads it while more events are written than the history holds, so the server-side watch is told "Errored"
+// (buffer overrun) by the wrapped state. The remote consumer must then see what a direct consumer sees in that situation: a prefix of the
+// log followed by exactly one terminal Errored - and the server handler must survive forwarding that event.
+func slowRemoteWatcher(c *vk.C, rng *rand.Rand, k int) {
+	ctx, cancel := context.WithCancel(context.Background())
+	defer func() {
+		cancel()
+		synctest.Wait()
+	}()
+
+	inner := inmem.NewStateWithOptions(inmem.WithHistoryInitialCapacity(8), inmem.WithHistoryMaxCapacity(8), inmem.WithHistoryGap(1))("ns")
+	cli := lb.New(server.NewState(inner))
+	cli.Buffer = 1 + rng.IntN(3)
+	remote := client.NewAdapter(cli, client.WithDisableWatchRetry())
+	kind := resource.NewMetadata("ns", res.TypeA, "", resource.VersionUndefined)
+	mode := []string{"single", "kind", "agg"}[k/10%3]
+
+	var (
+		ch  = make(chan state.Event)
+		agg = make(chan []state.Event)
+		err error
+	)
+
+	r := res.New("ns", res.TypeA, "x")
+	if err = inner.Create(ctx, r); err != nil {
+		c.Violation("write-failed", err.Error())
+
+		return
+	}
+
+	switch mode {
+	case "single":
+		err = remote.Watch(ctx, r.Metadata(), ch)
+	case "kind":
+		err = remote.WatchKind(ctx, kind, ch, state.WithBootstrapContents(rng.IntN(2) == 0))
+	default:
+		err = remote.WatchKindAggregated(ctx, kind, agg, state.WithBootstrapContents(rng.IntN(2) == 0))
+	}
+
+	if err != nil {
+		c.Violation("remote-watch-establish-failed", map[string]any{"mode": mode, "err": err.Error()})
+
+		return
+	}
+
+	synctest.Wait()
+
+	writes := 40 + rng.IntN(40)
+
+	for i := 0; i < writes; i++ {
+		res.SpecOf(r).Token = fmt.Sprint("o", i)
+
+		if err := inner.Update(ctx, r); err != nil {
+			c.Violation("write-failed", err.Error())
+
+			return
+		}
+	}
+
+	synctest.Wait()
+
+	// now read everything there is
+	var types []string
+
+	for more := true; more; {
+		synctest.Wait()
+
+		select {
+		case ev := <-ch:
+			types = append(types, ev.Type.String())
+		case evs := <-agg:
+			for _, ev := range evs {
+				types = append(types, ev.Type.String())
+			}
+		default:
+			more = false
+		}
+	}
+
+	c.Count("slow_remote_watchers", 1)
+
+	detail := map[string]any{"mode": mode, "writes": writes, "transport_buffer": cli.Buffer, "event_types": types}
+
+	for _, pn := range cli.Panics() {
+		detail["method"], detail["panic"], detail["stack"] = pn.Method, pn.Value, pn.Stack
+		c.Violation("server-handler-panicked", detail)
+
+		return
+	}
+
+	errored := 0
+
+	for i, t := range types {
+		if t == "Errored" {
+			errored++
+
+			if i != len(types)-1 {
+				c.Violation("remote-event-after-errored", detail)
+
+				return
+			}
+		}
+	}
+
+	// the consumer read nothing while far more events than the history holds were written: it is either told so, or it got them all
+	updates := 0
+
+	for _, t := range types {
+		if t == "Updated" {
+			updates++
+		}
+	}
+
+	if errored == 0 && updates < writes {
+		c.Violation("remote-watch-lost-events-silently", detail)
+
+		return
+	}
+
+	if errored > 0 {
+		c.Count("slow_remote_watchers_errored", 1)
+	}
 }
 
 // ---- differential ------------------------------------------------------------------------------------------------------
